@@ -102,7 +102,6 @@ func rbErrClass(err error) string {
 		{"mixed MPEGTS/FMP4", "mixed"},
 		{"difference between DTS and RTC is too big", "dtsrtc"},
 		{"there aren't enough segments", "notenough"},
-		{"no segments found", "nosegments"},
 		{"next segment not found", "nextnotfound"},
 		{"playback is too late", "toolate"},
 		{"preload hint disappeared", "hintgone"},
@@ -434,7 +433,7 @@ func rbPanicInfo(trace string) (kind string, where string, upstream bool) {
 				continue
 			}
 			where = l
-			if i := strings.Index(where, "("); i > 0 {
+			if i := strings.LastIndex(where, "("); i > 0 {
 				where = where[:i]
 			}
 			break
